@@ -120,6 +120,17 @@ theorem dest_range (O : Oracle) (h : Hist) (a : Attrs) (d i : Nat) :
   rw [List.mem_range'_1]
   omega
 
+/-- An explicit `stop_idx` is taken as given: the `real` flag plays no part, so a stop beyond the
+number of real particles selects ghost/remote destinations also in a `real=True` group (no clamp to
+`size(real)`). -/
+theorem explicit_stop_ignores_real (O : Oracle) (h : Hist) (a : Attrs) (d : Nat) (r : Bool)
+    (hs : a.stop.isSome = true) :
+    destRange O h { a with real := r } d = destRange O h a d := by
+  unfold destRange npDest startIdx
+  cases hst : a.stop with
+  | none => simp [hst] at hs
+  | some s => cases s <;> rfl
+
 /-- …in increasing order, each once. -/
 theorem dest_range_sorted (O : Oracle) (h : Hist) (a : Attrs) (d : Nat) :
     (destRange O h a d).Pairwise (· < ·) := by
@@ -312,6 +323,14 @@ example : implTrace Example.oracle 1 Example.emptyWithPre
 /-- `Program.WF` cannot be dropped: `min_iterations = 3 > max_iterations = 2` runs 3 passes -/
 example : implTrace Example.oracle 9 Example.minGtMax
     ≠ specTrace Example.oracle Example.minGtMax := by decide
+
+/-- explicit stop beyond the real count: array 0 of the example oracle has 2 real particles and 3
+in all; a default (`real=True`) group with `stop_idx=3` (numeric) works on 0, 1 and the ghost 2, with
+`start_idx=1` on 1 and 2; without `stop_idx` on the real ones only -/
+example : destRange Example.oracle [] { stop := some (.num 3) } 0 = [0, 1, 2] ∧
+    destRange Example.oracle [] { start := .num 1, stop := some (.num 3) } 0 = [1, 2] ∧
+    destRange Example.oracle [] { stop := some (.num 3), real := false } 0 = [0, 1, 2] ∧
+    destRange Example.oracle [] {} 0 = [0, 1] := by decide
 
 /-- hypotheses of `iteration_bounds` are satisfiable and the bound is attained -/
 example : (1 : Nat) ≤ ({ iterate := true, minIter := 2, maxIter := 3 } : Attrs).maxIter ∧
